@@ -69,6 +69,7 @@ func (st *State) call(f *Frame, ins ssa.Instruction, cc *ssa.CallCommon, opts *c
 			setResult(st.freshResult(cc.Method.Name(), resT))
 			return nil
 		}
+		st.frameCheckEntry(ins, modEntry{kind: "all"}, "frame:unknown-"+ord)
 		st.havocAll("call of interface method " + cc.Method.FullName() + " (no contract)")
 		setResult(st.freshResult(cc.Method.Name(), resT))
 		return nil
@@ -82,7 +83,12 @@ func (st *State) call(f *Frame, ins ssa.Instruction, cc *ssa.CallCommon, opts *c
 		if fnv.Term != "" {
 			st.panicOb2(f, ins, "nilfunc:"+ord, not(eq(fnv.Term, nilRef)), "call of nil function value")
 		}
-		st.havocAll("call through function value " + cc.Value.Name() + " in " + f.fn.Name())
+		if fnv.Term != "" && st.known[app("fn_pure", fnv.Term)] {
+			st.res.Assumed["function value "+cc.Value.Name()+" in "+f.fn.Name()+" is pure (stated as a precondition)"] = true
+		} else {
+			st.frameCheckEntry(ins, modEntry{kind: "all"}, "frame:unknown-"+ord)
+			st.havocAll("call through function value " + cc.Value.Name() + " in " + f.fn.Name())
+		}
 		st.res.Assumed["calls through function values (here in "+f.fn.Name()+") are assumed not to panic"] = true
 		res := st.freshResult("dyncall", resT)
 		if fnv.Term != "" {
@@ -98,6 +104,11 @@ func (st *State) call(f *Frame, ins ssa.Instruction, cc *ssa.CallCommon, opts *c
 					st.assume(imp(nn, not(eq(r.Term, nilRef))))
 				case SIface:
 					st.assume(imp(nn, not(eq(app("i_tag", r.Term), "0"))))
+					if r.T != nil && strings.HasSuffix(typeStr(r.T), "crypto/hashing.Hasher") {
+						st.eng.pre.Fun("fn_hashlen", "(Ref) (_ BitVec 16)")
+						st.eng.pre.Fun("iface_hashlen", "(Iface) (_ BitVec 16)")
+						st.assume(eq(app("iface_hashlen", r.Term), app("fn_hashlen", fnv.Term)))
+					}
 				}
 			}
 		}
@@ -156,6 +167,7 @@ func (st *State) call(f *Frame, ins ssa.Instruction, cc *ssa.CallCommon, opts *c
 			st.res.note("inline depth exceeded at " + shortName(callee) + ": havocked")
 		}
 	}
+	st.frameCheckEntry(ins, modEntry{kind: "all"}, "frame:unknown-"+ord)
 	st.havocAll("call of " + shortName(callee) + " (no contract, no body)")
 	setResult(st.freshResult(callee.Name(), resT))
 	return nil
@@ -578,7 +590,11 @@ func (st *State) havocCell(addr string, T types.Type) {
 	switch u := T.Underlying().(type) {
 	case *types.Struct:
 		for i := 0; i < u.NumFields(); i++ {
-			st.havocCell(sub(addr, i), u.Field(i).Type())
+			fa := st.eng.fsub(addr, T, i)
+			if _, imm := immArray(fa, SRef); imm {
+				continue // immutable fields are outside every frame
+			}
+			st.havocCell(fa, u.Field(i).Type())
 		}
 		return
 	case *types.Array:
